@@ -197,16 +197,6 @@ Definition small_history : list op :=
   [OBuild positioned; OWrite 0 W_DFXP dflt_opts 0; OBuild unbalanced; OWrite 0 W_DFXP dflt_opts 1;
    OWrite 0 W_DFXP dflt_opts 0; OWrite 1 W_DFXP dflt_opts 0].
 
-Example small_history_no_fuel_exhaustion : no_fuel_exhaustion fixed world0 small_history.
-Proof.
-  unfold small_history. cbn [no_fuel_exhaustion].
-  repeat split;
-    try (intros wi;
-         match goal with |- wr_result (write ?c ?k ?wo wi ?st ?s) <> _ =>
-           destruct (write_instance_independent c k wo wi winst0 st s eq_refl) as (_ & E & _); rewrite E end;
-         vm_compute; discriminate).
-Qed.
-
 (* and the oracle really runs over write records with equal keys and equal snapshots there *)
 Example small_history_observations :
   map (fun o => (io_kind o, io_set o)) (model_obs fixed world0 small_history)
@@ -226,3 +216,28 @@ Example oracle_reports_shared_default :
        [ORead 0 R_SRT doc_a; ORead 1 R_SRT doc_b; OEdit 0 (EAddStyle (TStr (lit "s:x")) red); ORead 2 R_SRT doc_b])
   = [(2, 5); (3, 4)]%Z.
 Proof. vm_compute. reflexivity. Qed.
+
+(* ---- DAG-shaped read results: a span's start and end node carry ONE dict ------------------------------------------------ *)
+Definition t_italics_end_shared : tree :=
+  TNode KNode [(TInt 1, TInt 2); (TInt 2, TNode KShare []); (TInt 3, TStr (lit "b:False")); (TInt 4, TNone); (TInt 5, TNone)].
+Definition doc_span : tree :=
+  t_set t_dict0 [t_cap t_dict0 [t_italics true; t_text "x"; t_italics_end_shared] TNone].
+(* what its snapshot looks like: the end node shows the start node's dict *)
+Definition doc_span_snapshot : tree :=
+  t_set t_dict0 [t_cap t_dict0 [t_italics true; t_text "x"; t_italics false] TNone].
+
+Definition content_of (t : tree) (ni : nat) : tree :=
+  let cap := nth 0 (telems (snd (nth 0 (set_langs_t t) (TNone, TNone)))) TNone in
+  tfield (nth ni (cap_nodes_t cap) TNone) 2.
+
+Example span_dict_is_shared_in_the_model :
+  set_after fixed [ORead 0 R_DFXP doc_span] 0 = doc_span_snapshot /\
+  (* node.content['color'] = 'pink' on the START node (index 0) shows up in the END node (index 2) too *)
+  let after := set_after fixed [ORead 0 R_DFXP doc_span;
+                                OEdit 0 (ENodeDict 0 0 0 (TStr (lit "s:color")) (TStr (lit "s:pink")))] 0 in
+  content_of after 0 = content_of after 2 /\ content_of after 0 <> content_of doc_span_snapshot 0 /\
+  (* ... but not when the reader built two dict literals (no marker: SAMI <i>, SCC) *)
+  let after' := set_after fixed [ORead 0 R_DFXP doc_span_snapshot;
+                                 OEdit 0 (ENodeDict 0 0 0 (TStr (lit "s:color")) (TStr (lit "s:pink")))] 0 in
+  content_of after' 0 <> content_of after' 2.
+Proof. vm_compute. repeat split; try reflexivity; discriminate. Qed.
